@@ -121,8 +121,23 @@ def analyse(ctx):
     return sh
 
 
+def _sentinel_identity(ctx, f):
+    """`inspect.Parameter.empty` is a sentinel: "has a default" is an identity test.  `==`/`!=` would call the default
+    value's own __eq__ (mock.ANY is equal to everything; an array compares element-wise and has no truth value)."""
+    n = 0
+    for c in ast.walk(f):
+        if isinstance(c, ast.Compare) and len(c.ops) == 1:
+            sides = [c.left, c.comparators[0]]
+            if any(isinstance(x, ast.Attribute) and x.attr == "empty" for x in sides):
+                n += 1
+                ctx.check(isinstance(c.ops[0], (ast.Is, ast.IsNot)), c, "the 'no default' sentinel is tested by identity",
+                          "`%s` compares a default value with the `empty` sentinel by equality: a default whose == is unusual (mock.ANY, array-likes) is dropped or makes filter_args raise" % unparse(c))
+    return n
+
+
 def kinds(ctx):
     sh = analyse(ctx)
+    _sentinel_identity(ctx, sh.f)
     if sh.delegates and sh.class_loop is None:
         ctx.ok(sh.f, "shape A: binding is delegated to inspect.Signature.bind + apply_defaults (all kinds are the interpreter's own)")
         return
@@ -457,8 +472,20 @@ def method(ctx):
     L = _enum_list(walk) if walk is not None else "arg_names"
     a_args = [a for a in t[0].body if isinstance(a, ast.Assign) and "args" in stores_to(a)]
     a_names = [a for a in t[0].body if isinstance(a, ast.Assign) and L in stores_to(a)]
-    ctx.check(bool(a_args) and "func.__self__" in unparse(a_args[0].value) and isinstance(a_args[0].value, ast.BinOp) and dotted(a_args[0].value.right) == "args", a_args[0] if a_args else t[0],
-              "for bound methods the instance is prepended to the positional values")
+    g_m = cfg_of(f)
+    ins = [c for s_ in t[0].body for c in calls_in(s_) if call_name(c) == "args.insert" and len(c.args) == 2 and const_value(c.args[0]) == 0 and unparse(c.args[1]) == "func.__self__"]
+    new_list = bool(a_args) and "func.__self__" in unparse(a_args[0].value) and isinstance(a_args[0].value, ast.BinOp) and dotted(a_args[0].value.right) == "args"
+    ctx.check(new_list or bool(ins), a_args[0] if a_args else (ins[0] if ins else t[0]), "for bound methods the instance is prepended to the positional values",
+              "for bound methods the instance is not prepended to the positional values")
+    # the caller's sequence is never modified: in-place edits of `args` need an unconditional private copy first
+    copies = [a for a in nodes_of_type(f, ast.Assign) if "args" in stores_to(a) and ((isinstance(a.value, ast.Call) and call_name(a.value) == "list") or isinstance(a.value, (ast.List, ast.ListComp))
+              or (isinstance(a.value, ast.BinOp) and isinstance(a.value.left, ast.List)))]
+    inplace = [c for c in calls_in(f) if isinstance(c.func, ast.Attribute) and dotted(c.func.value) == "args" and c.func.attr in ("insert", "append", "extend", "pop", "remove", "clear", "sort", "reverse")]
+    inplace += [a for a in ast.walk(f) if isinstance(a, ast.AugAssign) and dotted(a.target) == "args"]
+    inplace += [a for a in ast.walk(f) if isinstance(a, (ast.Assign, ast.Delete)) and any(isinstance(t_, ast.Subscript) and dotted(t_.value) == "args" for t_ in (a.targets if hasattr(a, "targets") else []))]
+    for m_ in inplace:
+        ctx.check(bool(copies) and g_m.every_path_to(g_m.nodes_of(m_), g_m.nodes_of_all(copies)), m_, "`%s` works on filter_args' own copy of the positional values" % unparse(m_, 50),
+                  "`%s` modifies `args` in place, and on some path `args` is still the caller's own list: a second call with the same list object sees the instance inserted by the first" % unparse(m_, 50))
     if sh.class_loop is not None and a_names and isinstance(a_names[0].value, ast.BinOp) and isinstance(a_names[0].value.left, ast.List) and a_names[0].value.left.elts:
         selfn = dotted(a_names[0].value.left.elts[0])
         po = [n_ for n_, d_ in sh.list_domain.items() if d_ == {"POSITIONAL_ONLY"}]
